@@ -26,6 +26,9 @@ struct Sig {
 struct G<'a> {
     p: &'a mut Prng,
     var_tys: Vec<T>,
+    /// variables whose type is written in the source (`let x: T`, parameters); pattern and
+    /// `for` binders take theirs from inference and may still be `{integer}` where they are used
+    annotated: Vec<bool>,
     /// visible variables: (id, assignable)
     scope: Vec<(usize, bool)>,
     ret: T,
@@ -39,8 +42,14 @@ const LET_TYS: [T; 10] = [T::I, T::I, T::I, T::B, T::B, T::O, T::E, T::R, T::L, 
 impl G<'_> {
     fn fresh(&mut self, t: T, assignable: bool) -> usize {
         self.var_tys.push(t);
+        self.annotated.push(true);
         let id = self.var_tys.len() - 1;
         self.scope.push((id, assignable));
+        id
+    }
+    fn binder(&mut self) -> usize {
+        let id = self.fresh(T::I, false);
+        self.annotated[id] = false;
         id
     }
     fn k(&mut self) -> E {
@@ -70,7 +79,12 @@ impl G<'_> {
     fn leaf(&mut self, t: T) -> E {
         let vs = self.vars(t);
         if !vs.is_empty() && self.p.chance(3, 5) {
-            return E::Var(*self.p.pick(&vs));
+            let x = *self.p.pick(&vs);
+            if !self.annotated[x] {
+                // the binder's type may still be `{integer}` here: pass it through a typed parameter
+                return E::Host(H_EMIT, vec![self.k(), E::Var(x)]);
+            }
+            return E::Var(x);
         }
         match t {
             T::I => self.int_lit(),
@@ -175,7 +189,7 @@ impl G<'_> {
                 }
                 37..=48 => {
                     let mut r = self.expr(T::I, d1);
-                    if !matches!(r, E::Var(_) | E::Host(..) | E::Call(..) | E::Field(..)) {
+                    if !matches!(r, E::Host(..) | E::Call(..) | E::Field(..)) && !matches!(r, E::Var(x) if self.annotated[x]) {
                         // a literal (or a block ending in one) has type `{integer}`, which has no methods:
                         // give the receiver a definite type
                         r = E::Host(H_EMIT, vec![self.k(), r]);
@@ -189,7 +203,14 @@ impl G<'_> {
                     E::Bin(op, Box::new(l), Box::new(r))
                 }
                 73..=76 => E::Neg(Box::new(self.expr(T::I, d1))),
-                77..=84 if self.ret == T::O => E::Try(Box::new(self.expr(T::O, d1))),
+                77..=84 if self.ret == T::O => {
+                    let mut o = self.expr(T::O, d1);
+                    if open_none(&o) {
+                        // `Option.None?` leaves the payload type open at that point of inference
+                        o = self.eleaf(T::O);
+                    }
+                    E::Try(Box::new(o))
+                }
                 77..=90 => {
                     let r = self.expr(T::R, d1);
                     E::Field(Box::new(r), self.p.below(2) as usize)
@@ -309,9 +330,13 @@ impl G<'_> {
                 E::If1(Box::new(c), b)
             }
             70..=79 => {
-                let l = self.expr(T::L, d);
+                let mut l = self.expr(T::L, d);
+                if matches!(&l, E::List(v) if v.is_empty()) {
+                    // `for x in []` leaves the element type open while the body is checked
+                    l = E::Host(H_EMIT_L, vec![self.k(), l]);
+                }
                 let mark = self.scope.len();
-                let x = self.fresh(T::I, true);
+                let x = self.binder();
                 let b = self.blk(T::U, d, false);
                 self.scope.truncate(mark);
                 E::For(x, Box::new(l), b)
@@ -333,7 +358,11 @@ impl G<'_> {
 
     fn match_(&mut self, t: T, d: u32) -> E {
         let is_opt = self.p.chance(1, 2);
-        let s = self.expr(if is_opt { T::O } else { T::E }, d);
+        let mut s = self.expr(if is_opt { T::O } else { T::E }, d);
+        if is_opt && open_none(&s) {
+            // `match Option.None { Some(x) => … }` leaves the payload type open while the arms are checked
+            s = self.eleaf(T::O);
+        }
         let nvar = if is_opt { 2 } else { 3 };
         let arity = |v: usize| if is_opt { [1, 0][v] } else { VARIANTS[v].1 };
         let mut arms = vec![];
@@ -344,7 +373,7 @@ impl G<'_> {
                 Pat::Wild
             } else {
                 let v = self.p.below(nvar) as usize;
-                Pat::Variant(v, (0..arity(v)).map(|_| self.fresh(T::I, true)).collect())
+                Pat::Variant(v, (0..arity(v)).map(|_| self.binder()).collect())
             };
             let g = self.expr(T::B, d);
             let body = self.blk(t, d, true);
@@ -362,7 +391,7 @@ impl G<'_> {
                 break;
             }
             let mark = self.scope.len();
-            let pat = Pat::Variant(*v, (0..arity(*v)).map(|_| self.fresh(T::I, true)).collect());
+            let pat = Pat::Variant(*v, (0..arity(*v)).map(|_| self.binder()).collect());
             let last_arm = keep == order.len() && i + 1 == keep;
             let body = self.blk(t, d, !last_arm);
             self.scope.truncate(mark);
@@ -442,6 +471,23 @@ impl G<'_> {
     }
 }
 
+/// Is the expression an `Option.None` whose payload type nothing anchors?
+fn open_none(e: &E) -> bool {
+    fn blk_open(b: &Blk) -> bool {
+        match &b.last {
+            Some(l) => open_none(l) || matches!(**l, E::Ret(_) | E::Accept(_) | E::Reject(_)),
+            None => false,
+        }
+    }
+    match e {
+        E::None_ => true,
+        E::Block(b) => blk_open(b),
+        E::Ite(_, a, b) => blk_open(a) && blk_open(b),
+        E::Match(_, _, arms) => arms.iter().all(|a| blk_open(&a.body)),
+        _ => false,
+    }
+}
+
 pub fn gen_program(p: &mut Prng) -> Generated {
     let depth = 2 + p.below(3) as u32;
     let nhelpers = match p.below(10) {
@@ -449,7 +495,7 @@ pub fn gen_program(p: &mut Prng) -> Generated {
         5..=7 => 1,
         _ => 2,
     };
-    let mut g = G { p, var_tys: vec![], scope: vec![], ret: T::I, sigs: vec![], key: 0, budget: 0 };
+    let mut g = G { p, var_tys: vec![], annotated: vec![], scope: vec![], ret: T::I, sigs: vec![], key: 0, budget: 0 };
     let mut fns = vec![];
     for i in 0..=nhelpers {
         let is_main = i == nhelpers;
